@@ -616,7 +616,9 @@ def interpret(case, ctx):
             if static_only_instance:
                 blame["*"] = "static-only-instance"
             if tags is None:
-                tags = lwt_tags(written, nulled, lwt)
+                # an emptied list / set that was assigned (not mutated in place) is still sent in the UPDATE statement (l = [], s = s - {..})
+                emptied = [a for a in changed if a in ("s", "l") and h.vals[a] is None and a in h.explicit]
+                tags = lwt_tags(written + emptied, nulled, lwt)
             outcome = run(["C35.run", method], (obj.save if method == "save" else obj.update), expect_lwt, tags)
             if outcome != "ok":
                 return outcome
@@ -886,7 +888,8 @@ def interpret(case, ctx):
                     obj.batch(batch)
                 writes = [a for a, v in kw_t.items() if not _null(v)] + [a for a, v in kw_t.items() if _null(v)]
                 outcome = run(["C35.run", "blind"], obj.update, (bool(iff_kw) and not holds) or (if_exists and not sh.exists(k, c)),
-                              lwt_tags([a for a, v in kw_t.items() if not _null(v)], [a for a, v in kw_t.items() if _null(v)], lwt))
+                              # a never-persisted instance sends every collection given as None / empty as an assignment in the UPDATE statement
+                              lwt_tags([a for a, v in kw_t.items() if not _null(v) or a in _COLLS], [a for a, v in kw_t.items() if _null(v)], lwt))
                 if outcome != "ok":
                     return "ok" if outcome == "lwt" else outcome
                 for a, v in kw_t.items():
